@@ -26,7 +26,8 @@ func verifNewErc20Env() *verifErc20Env {
 	if sdk.GetConfig().GetBech32AccountAddrPrefix() != fxtypes.AddressPrefix {
 		fxtypes.SetConfig(false)
 	}
-	e := &verifErc20Env{ms: models.NewMultiStore(types.StoreKey), bank: models.NewBank(), tok: models.NewErc20(), evm: models.NewEVM()}
+	ms := models.NewMultiStore(types.StoreKey)
+	e := &verifErc20Env{ms: ms, bank: models.NewBank(ms), tok: models.NewErc20(ms), evm: models.NewEVM()}
 	e.ctx = models.NewContext(e.ms, 10, 1700000000)
 	e.k = Keeper{storeKey: models.NewStoreKey(types.StoreKey), cdc: models.NewCodec(nil), accountKeeper: models.Accounts{},
 		bankKeeper: e.bank, evmKeeper: e.evm, evmErc20Keeper: e.tok,
